@@ -1091,7 +1091,7 @@ seq_t dtw_warping_paths_ndim(seq_t *wps,
     }
     // First column:
     wpsi = p.width;
-    for (ri=0; ri<settings->psi_1b; ri++) {
+    for (ri=0; ri<settings->psi_1b && ri<l1; ri++) {
         wps[wpsi] = 0;
         wpsi += p.width;
     }
@@ -1475,7 +1475,7 @@ seq_t dtw_warping_paths_ndim_euclidean(seq_t *wps,
     }
     // First column:
     wpsi = p.width;
-    for (ri=0; ri<settings->psi_1b; ri++) {
+    for (ri=0; ri<settings->psi_1b && ri<l1; ri++) {
         wps[wpsi] = 0;
         wpsi += p.width;
     }
@@ -1906,7 +1906,7 @@ seq_t dtw_warping_paths_affinity_ndim(seq_t *wps,
     }
     // First column:
     wpsi = p.width;
-    for (ri=0; ri<settings->psi_1b; ri++) {
+    for (ri=0; ri<settings->psi_1b && ri<l1; ri++) {
         wps[wpsi] = 0;
         wpsi += p.width;
     }
@@ -2251,7 +2251,7 @@ seq_t dtw_warping_paths_affinity_ndim_euclidean(seq_t *wps,
     }
     // First column:
     wpsi = p.width;
-    for (ri=0; ri<settings->psi_1b; ri++) {
+    for (ri=0; ri<settings->psi_1b && ri<l1; ri++) {
         wps[wpsi] = 0;
         wpsi += p.width;
     }
